@@ -2,6 +2,16 @@
 import re
 
 
+_INTO = re.compile(r'^<(.+) as std::convert::Into<(.+)>>::into$')
+
+
+def _nolt(t):
+    """type name without lifetimes"""
+    t = re.sub(r"<'[a-z_]+>", '', t or '')
+    t = re.sub(r"'[a-z_]+,\s*", '', t)
+    return re.sub(r"&'[a-z_]+ ", '&', t)
+
+
 class CallGraph:
     def __init__(self, facts, manual_links=()):
         self.f = facts
@@ -14,6 +24,11 @@ class CallGraph:
         self.handlers_by_msg = {}
         for (a, m), n in self.handlers.items():
             self.handlers_by_msg.setdefault(m, []).append(n)
+        # `x.into()` resolves to the blanket impl in core: link it to the crate's From impl
+        self.from_impls = {}
+        for b in facts.bodies.values():
+            if b.trait == 'std::convert::From' and b.name.endswith('::from') and b.trait_args:
+                self.from_impls[(_nolt(b.self_ty), _nolt(b.trait_args[0]))] = b.name
         for b in facts.bodies.values():
             outs = self.edges.setdefault(b.name, set())
             # closures and async blocks created in the body
@@ -40,6 +55,11 @@ class CallGraph:
         elif site.full in f.bodies:
             out.append(site.full)
         c = site.callee or ''
+        m = _INTO.match(site.full or '') or _INTO.match(site.rfull or '')
+        if m:
+            h = self.from_impls.get((_nolt(m.group(2)), _nolt(m.group(1))))
+            if h:
+                out.append(h)
         if c.startswith('actix::Addr::<A>::') and c.split('::')[-1] in ('send', 'do_send', 'try_send'):
             ga = site.gargs
             if len(ga) >= 2:
